@@ -1,0 +1,128 @@
+//go:build verif
+
+package lossy
+
+import (
+	"fmt"
+	"strings"
+)
+
+// Verification hook for the VP8 decoder front end (property C05): everything
+// DecodeFrame does before the macroblock loop, on the real methods. Compiled
+// only with the build tag "verif"; it adds no behaviour of its own.
+
+// VerifFront is what parseHeaders + initFrame established.
+type VerifFront struct {
+	Width, Height    int
+	XScale, YScale   int
+	Profile          int
+	PartitionLength  int
+	Colorspace       int
+	ClampType        int
+	Seg              SegmentHeader
+	SegProbs         [MBFeatureTreeProbs]uint8
+	Filter           FilterHeader
+	FilterType       int
+	NumParts         int
+	PartOff, PartLen []int // token partitions: offset in data, length
+	Dqm              [NumMBSegments]QuantMatrix
+	CoeffProbs       []byte // [t][b][c][p] flattened
+	UseSkipProba     bool
+	SkipP            int
+	MbW, MbH         int
+	// lengths after initFrame
+	YuvT, MbInfo, FInfo, MbData, Slab, IntraT, YuvB, CacheY, CacheU, CacheV int
+	CacheYStride, CacheUVStride                                                int
+}
+
+// VerifVP8Front runs parseHeaders and initFrame on dec (nil = a fresh
+// Decoder, i.e. nothing to reuse) and reports the resulting state. The
+// partition offsets are recovered from the capacities of the slices the
+// token readers were created over (cap(data) - cap(sub) for a sub-slice).
+func VerifVP8Front(dec *Decoder, data []byte) (*VerifFront, error) {
+	if dec == nil {
+		dec = &Decoder{}
+	}
+	if err := dec.parseHeaders(data); err != nil {
+		return nil, err
+	}
+	if err := dec.initFrame(); err != nil {
+		return nil, err
+	}
+	f := &VerifFront{
+		Width: dec.picHdr.Width, Height: dec.picHdr.Height,
+		XScale: int(dec.picHdr.XScale), YScale: int(dec.picHdr.YScale),
+		Profile: int(dec.frmHdr.Profile), PartitionLength: int(dec.frmHdr.PartitionLength),
+		Colorspace: int(dec.picHdr.Colorspace), ClampType: int(dec.picHdr.ClampType),
+		Seg: dec.segHdr, SegProbs: dec.proba.Segments, Filter: dec.filterHdr,
+		FilterType: dec.filterType, NumParts: int(dec.numPartsMinusOne) + 1,
+		Dqm: dec.dqm, UseSkipProba: dec.useSkipProba, SkipP: int(dec.skipP),
+		MbW: dec.mbW, MbH: dec.mbH,
+		YuvT: len(dec.yuvT), MbInfo: len(dec.mbInfo), FInfo: len(dec.fInfo), MbData: len(dec.mbData),
+		Slab: len(dec.slab), IntraT: len(dec.intraT), YuvB: len(dec.yuvB),
+		CacheY: len(dec.cacheY), CacheU: len(dec.cacheU), CacheV: len(dec.cacheV),
+		CacheYStride: dec.cacheYStride, CacheUVStride: dec.cacheUVStride,
+	}
+	for p := 0; p < f.NumParts; p++ {
+		b := dec.parts[p].VerifBuf()
+		f.PartOff = append(f.PartOff, cap(data)-cap(b))
+		f.PartLen = append(f.PartLen, len(b))
+	}
+	for t := 0; t < NumTypes; t++ {
+		for b := 0; b < NumBands; b++ {
+			for c := 0; c < NumCTX; c++ {
+				f.CoeffProbs = append(f.CoeffProbs, dec.proba.Bands[t][b].Probas[c][:]...)
+			}
+		}
+	}
+	return f, nil
+}
+
+// VerifNewDirtyDecoder returns a Decoder that has been through initFrame for
+// an mbW x mbH grid, so that a following VerifVP8Front exercises the
+// reuse-by-capacity branches.
+func VerifNewDirtyDecoder(mbW, mbH int) *Decoder {
+	dec := &Decoder{mbW: mbW, mbH: mbH}
+	if err := dec.initFrame(); err != nil {
+		return &Decoder{}
+	}
+	return dec
+}
+
+// VerifFrontErrClass maps an error of parseHeaders / initFrame to the class
+// names of the model.
+func VerifFrontErrClass(err error) string {
+	if err == nil {
+		return ""
+	}
+	m := err.Error()
+	switch {
+	case strings.Contains(m, "truncated header"):
+		return "truncated"
+	case strings.Contains(m, "bad profile"):
+		return "profile"
+	case strings.Contains(m, "not displayable"):
+		return "notshown"
+	case strings.Contains(m, "not a keyframe"):
+		return "notkey"
+	case strings.Contains(m, "truncated picture header"):
+		return "truncpic"
+	case strings.Contains(m, "bad signature"):
+		return "signature"
+	case strings.Contains(m, "zero dimensions"):
+		return "zerodim"
+	case strings.Contains(m, "bad partition length"):
+		return "partlen"
+	case strings.Contains(m, "premature EOF in segment header"):
+		return "segeof"
+	case strings.Contains(m, "not enough data for partition sizes"):
+		return "parttable"
+	case strings.Contains(m, "exceeds remaining data"):
+		return "partsize"
+	case strings.Contains(m, "frame too large"):
+		return "toolarge"
+	case strings.Contains(m, "frame buffers too large"):
+		return "slabtoolarge"
+	}
+	return fmt.Sprintf("other(%s)", m)
+}
